@@ -576,9 +576,19 @@ def _ctors(node):
     return out
 
 
-def _replaces(node, with_variant):
-    """mem::replace(relay, Relay::<with_variant>..) calls in a subtree."""
+_HIR_FACTS = {}
+
+
+def _replaces(node, with_variant, _depth=0):
+    """mem::replace(relay, Relay::<with_variant>..) calls in a subtree (following, one level, a private method of
+    Relay that the arm calls: extracting the replace into a helper is a behaviour-preserving refactoring)."""
     out = []
+    if _depth == 0 and _HIR_FACTS.get('F') is not None:
+        F = _HIR_FACTS['F']
+        for c in H.calls(node):
+            d = c.get('def') or ''
+            if d.startswith(RELAY + '::') and d in F.hir and (F.fns.get(d) or {}).get('vis') != 'pub':
+                out.extend(_replaces(F.hir[d]['body'], with_variant, 1))
     for c in H.calls(node, ['core::mem::replace']):
         a = c['a'][1] if len(c['a']) == 2 else None
         d = H.path_def(a) if a is not None else None
@@ -598,6 +608,7 @@ def _diverges(node):
 @RS.rule('C15.R6', 'K-TABLE', 'relay: send stores Computed and wakes exactly on Polled; receive hands the value out only on Computed (-> Done), never on Done')
 def r6(cx):
     F = cx.F
+    _HIR_FACTS['F'] = F
     # --- send
     h, m, t = _relay_table(cx, SEND)
     cx.fn(SEND)
@@ -707,10 +718,10 @@ def r6b(cx):
     variants = [v['name'] for v in F.adt(RELAY)['variants']]
     fns = [fn for fn in F.bodies if fn.endswith('core::future::future::Future>::poll') and 'forwarder::Receiver' in fn]
     cx.require(len(fns) == 1, 'Receiver::poll not found: %s' % fns)
-    body = F.bodies[fns[0]]
+    body = F.inlined(F.bodies[fns[0]], lambda callee: callee.startswith(RELAY + '::'))
     cx.fn(body.fn)
     refs = [i for i, l in enumerate(body.locals) if l['ty'].startswith('&mut ' + RELAY)]
-    named = [i for i in refs if body.locals[i].get('name')]
+    named = [i for i in refs if body.locals[i].get('name') and i < len(F.bodies[fns[0]].locals)]   # not the inlined helper's `self`
     cx.require(len(named) == 1, 'expected one named &mut Relay local in Receiver::poll, found %s' % named)
     st_in, st_out = Q.variant_state_at_exits(F, body, named[0], RELAY, variants)
     exits = [(b, j, s) for b, j, s in Q.find_aggregates(body, 'core::task::poll::Poll', None) if s['lhs']['l'] == 0]
